@@ -1,3 +1,8 @@
 import TT.Props.C20
 import TT.Props.C19
 import TT.Props.C04
+import TT.Props.C05
+import TT.Props.C12
+import TT.Props.C13
+import TT.Props.C14
+import TT.Props.C15
